@@ -27,7 +27,9 @@ var payloadKinds = []struct {
 		return fw.Pick(r, []string{"//", "////", " /* not a block */", "/", " */", " a // b"}) + fmt.Sprintf(" #%d", n)
 	}},
 	{"backslash-end", func(r *rand.Rand, n int) string { return fmt.Sprintf(" #%d ends with \\", n) }},
-	{"trailing-blanks", func(r *rand.Rand, n int) string { return fmt.Sprintf(" #%d trailing", n) + fw.Pick(r, []string{" ", "  ", "\t", " \t "}) }},
+	{"trailing-blanks", func(r *rand.Rand, n int) string {
+		return fmt.Sprintf(" #%d trailing", n) + fw.Pick(r, []string{" ", "  ", "\t", " \t "})
+	}},
 	{"non-ascii", func(r *rand.Rand, n int) string { return fmt.Sprintf(" #%d ünïcödé ✓ 日本", n) }},
 	{"empty", func(r *rand.Rand, n int) string { return "" }},
 	{"spaces-only", func(r *rand.Rand, n int) string { return fw.Pick(r, []string{" ", "   "}) }},
